@@ -86,12 +86,12 @@ def main():
     cut = strip_tests(src)
     muts = (kw_swaps(src, cut) if a.tables else []) + mutants_of(src, cut)
     random.Random(a.seed).shuffle(muts)
-    env = dict(os.environ, CARGO_NET_OFFLINE='true', CARGO_TARGET_DIR=target, VERIF_REPO=repo)
+    env = dict(os.environ, CARGO_NET_OFFLINE='true', CARGO_TARGET_DIR=target, VERIF_REPO=repo, VERIF_OUT=os.path.join(SCR, 'out'), VERIF_WORK=os.path.join(SCR, 'work'))
     done = 0; results = []
     for name, line, text, new in muts:
         if done >= a.max: break
         open(path, 'w', encoding='utf-8').write(new)
-        r = sh('cargo test --offline 2>&1 | tail -40', cwd=repo, env=env, timeout=600)
+        r = sh('cargo test --offline --lib 2>&1 | tail -40', cwd=repo, env=env, timeout=600)
         ok = 'test result: ok. 157 passed' in r.stdout and 'error' not in r.stdout.split('test result')[0][-400:]
         if not ok or 'FAILED' in r.stdout or 'error[' in r.stdout or 'could not compile' in r.stdout:
             continue
